@@ -14,7 +14,8 @@ def run(rep, tier):
     from vlib import gen_misc
     info = gen_misc.generate()
     rep.notes['translator'] = {'transpose_passes': [[hex(a), b] for a, b in info['passes']], 'refused': info['refused']}
-    rep.set_proof(core.prove(['Properties_C20.v']))
+    from checks import c11
+    rep.set_proof(c11.prove_shared(['Properties_C20.v']))
     rep.trusted += ['Coq 8.16.1 kernel', 'vlib/gen_misc.py (pass table reader)', 'extraction + runner/main.ml', 'harness/c20.cc (bit-by-bit '
                     'reference loops inside the harness)']
     rep.assumptions += ['128/256-bit inplace_transpose_square and the AVX/SSE intrinsics are tied by the differential sweep, not modelled']
